@@ -170,19 +170,21 @@ def expressionEndsWithPrefix (isPfx : Nat → Bool) : E → Bool
   | .paren _ => true
   | .ifexp _ _ b => expressionEndsWithPrefix isPfx b
   | .cast _ _ => false
-  | .un _ x => expressionEndsWithPrefix isPfx x
-  | .bin _ _ r => expressionEndsWithPrefix isPfx r
+  -- the generators write these operands between parentheses
+  | .un _ x => unaryNeedsParentheses x || expressionEndsWithPrefix isPfx x
+  | .bin o _ r => rightNeedsParentheses o r || expressionEndsWithPrefix isPfx r
 
-/-- H₃ (finding F26): the written form does not end with a parenthesis the printer adds itself,
-and negative literals are numbers (not prefix expressions). -/
-def H3 (isPfx : Nat → Bool) : E → Bool
+/-- Kinding of the model's atoms: the atom inside a negative number literal is a numeral, so
+`isPfx` (which atoms are prefix expressions) must be false of it. Not a restriction on
+darklua's trees. -/
+def numeralsAreNotPrefix (isPfx : Nat → Bool) : E → Bool
   | .atom _ => true
   | .negnum k => !isPfx k
-  | .paren _ => true
-  | .ifexp _ _ b => H3 isPfx b
-  | .cast _ _ => true
-  | .un _ x => !unaryNeedsParentheses x && H3 isPfx x
-  | .bin o _ r => !rightNeedsParentheses o r && H3 isPfx r
+  | .paren e => numeralsAreNotPrefix isPfx e
+  | .ifexp c a b => numeralsAreNotPrefix isPfx c && numeralsAreNotPrefix isPfx a && numeralsAreNotPrefix isPfx b
+  | .cast e _ => numeralsAreNotPrefix isPfx e
+  | .un _ x => numeralsAreNotPrefix isPfx x
+  | .bin _ l r => numeralsAreNotPrefix isPfx l && numeralsAreNotPrefix isPfx r
 
 /-! ### character level: utils.rs -/
 
